@@ -10,6 +10,9 @@ HARNESSES = [
     S('S_signal', 'H_SIGNAL', ['dispatch_semaphore_signal'], 'real dispatch_semaphore_signal (+_signal_slow): all 2^64 values, <=2 interfering changes of the value'),
     S('S_wait', 'H_WAIT', ['dispatch_semaphore_wait'], 'real dispatch_semaphore_wait + _dispatch_semaphore_wait_slow: all values x all timeouts x arbitrary kernel answers, <=2 interferences'),
 ]
+HARNESSES.append(H('Q_sema_2w2s', 'h_sema_q.c', ['dispatch_semaphore_wait', 'dispatch_semaphore_signal', '__dispatch_tsd'], stubs=STUBS, blocking=['_dispatch_sema4_wait'], visible=['_dispatch_sema4_signal', '_dispatch_sema4_timedwait'],
+    seq=True, nt=5, heap=256, defines=['-DQ_ROUNDS=3', '-DQ_MAXB=8'], unwind=6, probes=PR, timeout=1500, witness_any=True,
+    note='REAL interleavings (tier Q): 2 waiters (timeout class NOW/finite/FOREVER chosen by the solver) x 2 signalers, initial value 0/1, context switch before every atomic access and kernel call, 3 rounds x 4 threads x <=8 steps'))
 ASSUMPTIONS = ['tier S: one call from an arbitrary 64-bit dsema_value; other threads may replace the value (any 64-bit value) at most twice before the unit\'s atomic accesses',
                'the kernel semaphore (lock.c _dispatch_sema4_*) is replaced by its POSIX contract: signal posts one wake-up, wait consumes one, timedwait either consumes one or reports a timeout (solver chooses)',
                'global conservation (successes <= v + signals, v + S - W permits remain) is the sum of the per-call accounting lemmas; the cross-thread schedule itself is not enumerated here']
